@@ -379,10 +379,18 @@ class HplAtomicValue(HplValue):
         return self
 
 
+def _nan_as_key(value: Union[bool, int, float, str]) -> Union[bool, int, float, str, None]:
+    # NaN != NaN, but two NAN literals are the same literal
+    return None if isinstance(value, float) and value != value else value
+
+
 @frozen
 class HplLiteral(HplAtomicValue):
     token: str
-    value: Union[bool, int, float, str] = field(validator=instance_of((bool, int, float, str)))
+    value: Union[bool, int, float, str] = field(
+        validator=instance_of((bool, int, float, str)),
+        eq=_nan_as_key,
+    )
 
     def __attrs_post_init__(self):
         if self.value is True or self.value is False:
